@@ -460,8 +460,8 @@ def ulp_places(m_hi, open_hi):
 
 HP_READERS = [('hp2dec', 'value'), ('hp2dms', 'dms'), ('hp2ddm', 'ddm'), ('HPAngle.__init__', 'validate')]
 HP_MAX = F(720)
-PLACES_WITNESS = ('hp2dec(719.06) raised "Invalid HP Notation: 3rd decimal place greater than 5" on the code as found: doubles from 512 up are 1.1e-13 apart, '
-                  "f'{719.06:.13f}' is '719.0599999999999'")
+PLACES_WITNESS = ("doubles from 512 up are 1.1e-13 apart: f'{719.06:.13f}' is '719.0599999999999', so the valid value 719 deg 06 min reads as seconds 99.99 and is "
+                  'rejected / decoded 40" off; this is the defect repaired in geodepy 2346092, where hp2dec(719.06) raised)')
 
 
 def cond_value(c, env):
@@ -502,10 +502,10 @@ def digit_rules(repo, rep):
               'formatting to P places denotes the value itself up to 0.5e-P (within the property tolerance for P >= 9 places of a second, 12 of an HP number)')
     rep.trust('IEEE double: values in [2^e, 2^(e+1)) are 2^(e-52) apart; a decimal written with P places is recovered by rendering to P places iff 10^-P > that spacing')
 
-    def evaluate(q, mag):
+    def evaluate(q, mag, sign=1):
         opq = {'DMSAngle.__init__', 'DDMAngle.__init__'}
         ev = DigitEvaluator(repo, opaque=opq, summaries={'DMSAngle.__init__': _capture, 'DDMAngle.__init__': _capture})
-        ev.magnitude = (x, mag)
+        ev.magnitude = (x, mag, sign)
         if q == 'HPAngle.__init__':
             c = m.classes['HPAngle']
             f = c.init()
@@ -526,11 +526,12 @@ def digit_rules(repo, rep):
         last = i == len(cuts) - 2
         regimes.append(('%s <= |hp| %s %s' % (lo, '<=' if last else '<', hi), (lo + hi) / 2, ulp_places(hi, not last)))
     for q, kind in HP_READERS:
+      for sign in (1, -1):
         for label, mag, pmax in regimes:
-            f, ev, got = evaluate(q, mag)
+            f, ev, got = evaluate(q, mag, sign)
             rep.analysed(f)
             w = where(f, f.node)
-            tag = '[%s]' % label
+            tag = '[%s%s]' % (label, '' if sign > 0 else ', hp < 0')
             specs = [sp for fn, sp, nd in ev.formats if re.match(r'^\.(\d+)f$', sp)]
             key = 'R-FORMAT::geodepy/angles.py::%s::places%s' % (q, tag)
             if ev.string_problems:
@@ -588,13 +589,11 @@ def digit_rules(repo, rep):
             deg = alg.fabs(fint(arg, P))
             fkey = 'R-DIGITS::geodepy/angles.py::%s::fields%s' % (q, tag)
             if kind == 'value':
-                lv = ite_leaves(got) if isinstance(got, Rat) else []
-                if len(lv) != 2:
-                    rep.undecided('R-DIGITS', fkey, w, '%s is not "v if hp >= 0 else -v": %s' % (q, show(got, 2, 160)))
+                if not isinstance(got, Rat):
+                    rep.undecided('R-DIGITS', fkey, w, '%s does not evaluate to a number: %s' % (q, show(got, 2, 160)))
                 else:
-                    check_equal(rep, 'R-DIGITS', fkey, w, lv[0], deg + mm / C(60) + sec / C(3600),
-                                '%s = |DDD| + MM/60 + SS.s/3600 with MM = decimals 1-2, SS = decimals 3-4, s = decimals 5-%d of the rendering' % (q, P))
-                    check_equal(rep, 'R-SIBLING', 'R-SIBLING::geodepy/angles.py::%s::digits-sign%s' % (q, tag), w, lv[1], -lv[0], '%s: negative branch is the negated positive branch' % q)
+                    check_equal(rep, 'R-DIGITS', fkey, w, got, C(sign) * (deg + mm / C(60) + sec / C(3600)),
+                                '%s = %s(|DDD| + MM/60 + SS.s/3600) with MM = decimals 1-2, SS = decimals 3-4, s = decimals 5-%d of the rendering' % (q, '' if sign > 0 else '-', P))
             elif kind in ('dms', 'ddm'):
                 lv = [got.a, got.b] if isinstance(got, IteV) else ([got, got] if isinstance(got, Tup) else [])
                 if len(lv) != 2 or not all(isinstance(z, Tup) for z in lv):
@@ -608,18 +607,14 @@ def digit_rules(repo, rep):
                             gi = alg.fabs(gi)     # integer part of the rendering of |hp| is non-negative
                         check_equal(rep, 'R-DIGITS', fkey + '::' + nm, w, gi, want[i_],
                                     '%s %s field from the decimals of the rendering (MM = decimals 1-2, SS.s = decimals 3-%d)' % (q, nm, P))
-                    same = all(compare_values(a_, b_) == 'equal' for a_, b_ in zip(lv[0].items[:len(names)], lv[1].items[:len(names)]))
-                    flags = (lv[0].items[-1], lv[1].items[-1])
-                    if isinstance(got, Tup) and isinstance(flags[0], IteV) and isinstance(flags[0].a, Bool) and isinstance(flags[0].b, Bool):
-                        # the two constructor calls were merged field by field: the flag is ite(hp >= 0, True, False)
-                        nonneg = ev.compare(ast.GtE(), x, C(0))
-                        if compare_values(flags[0].cond, nonneg) == 'equal':
-                            flags = (flags[0].a, flags[0].b)
+                    flag = lv[0].items[-1]
                     skey = 'R-SIBLING::geodepy/angles.py::%s::digits-sign%s' % (q, tag)
-                    if same and isinstance(flags[0], Bool) and isinstance(flags[1], Bool) and flags[0].b and not flags[1].b:
-                        rep.holds('R-SIBLING', skey, w, '%s: same fields with positive=True for hp >= 0, positive=False otherwise' % q)
+                    if isinstance(flag, Bool) and flag.b == (sign > 0):
+                        rep.holds('R-SIBLING', skey, w, '%s: positive=%s for hp %s 0' % (q, flag.b, '>=' if sign > 0 else '<'))
+                    elif isinstance(flag, Bool):
+                        rep.violated('R-SIBLING', skey, w, '%s builds the object with positive=%s for a %s HP value' % (q, flag.b, 'non-negative' if sign > 0 else 'negative'))
                     else:
-                        rep.violated('R-SIBLING', skey, w, '%s: the two sign branches do not build the same fields with opposite flags' % q)
+                        rep.undecided('R-SIBLING', skey, w, '%s: sign flag not decided: %s' % (q, show(flag, 2, 80)))
             # validators: the rejected set is exactly {minutes field >= 60 or seconds field >= 60}
             if kind in ('value', 'validate'):
                 conds = [c_ for fn_, c_, n_ in ev.raise_conds if fn_ in (q, q.split('.')[-1], f.qualname)]
@@ -758,7 +753,7 @@ def digit_rules(repo, rep):
     producer_carry_rules(repo, rep, m)
     # ---- sibling rule: how positional fields are taken out of an HP number
     extraction_rules(repo, rep, m)
-    rep.floor('R-DIGITS', 8, 'field cutting of hp2dec / hp2dms / hp2ddm per magnitude regime, assembly of dec2hp, field extraction of the hp2* functions')
+    rep.floor('R-DIGITS', 14, 'field cutting of hp2dec / hp2dms / hp2ddm per magnitude regime, assembly of dec2hp, field extraction of the hp2* functions')
 
 
 HP_WITNESS = 'hp2dms(259.02) = 259d 01m 99.99999999971s (259.0444 deg, 40" off 259d 02m 00s) because 259.02 * 1000 = 259019.99999999997'
